@@ -169,6 +169,13 @@ func (r *Rec) regress() {
 			continue
 		}
 		n++
+		if os.Getenv("VK_REGRESS_REPORT") != "" {
+			if v == nil {
+				fmt.Printf("REGRESS %s ok\n", rel)
+			} else {
+				fmt.Printf("REGRESS %s %s\n", rel, v.Class)
+			}
+		}
 		if v == nil {
 			continue
 		}
